@@ -449,6 +449,44 @@ func registerExternals(w *World) {
 		return r, true
 	}
 
+	// ---- strconv on symbolic integers: numeral atoms ----
+	atomOf := func(in *interp, v value) (value, bool) {
+		sv, ok := v.(*Sym)
+		if !ok || !kindInt(sv.K) {
+			return nil, false
+		}
+		return &Atom{T: sv.T, K: sv.K, Verb: "%d"}, true
+	}
+	x["strconv.Itoa"] = func(fr *frame, args []value) (value, bool) {
+		if a, ok := atomOf(fr.in, args[0]); ok {
+			return &SymStr{E: []value{a}}, true
+		}
+		return nil, false
+	}
+	fmtInt := func(fr *frame, args []value) (value, bool) {
+		if a, ok := atomOf(fr.in, args[0]); ok {
+			if b, isInt := args[1].(int); !isInt || b != 10 {
+				panic(unsupported{"strconv.Format* of a symbolic number in a base other than 10"})
+			}
+			return &SymStr{E: []value{a}}, true
+		}
+		return nil, false
+	}
+	x["strconv.FormatInt"] = fmtInt
+	x["strconv.FormatUint"] = fmtInt
+	appInt := func(fr *frame, args []value) (value, bool) {
+		if a, ok := atomOf(fr.in, args[1]); ok {
+			if b, isInt := args[2].(int); !isInt || b != 10 {
+				panic(unsupported{"strconv.Append* of a symbolic number in a base other than 10"})
+			}
+			dst, _ := args[0].([]value)
+			return append(dst, a), true
+		}
+		return nil, false
+	}
+	x["strconv.AppendInt"] = appInt
+	x["strconv.AppendUint"] = appInt
+
 	// ---- native fast paths (concrete arguments only) ----
 	nat := func(name string, fn any) {
 		prev := x[name]
@@ -963,10 +1001,6 @@ func extSscanf(fr *frame, args []value) (value, bool) {
 	if !ok || format != "%d" {
 		panic(unsupported{"fmt.Sscanf with format other than %d"})
 	}
-	s, ok := args[0].(string)
-	if !ok {
-		panic(unsupported{"fmt.Sscanf on symbolic string"})
-	}
 	dst := args[2].([]value)
 	if len(dst) != 1 {
 		panic(unsupported{"fmt.Sscanf arity"})
@@ -975,6 +1009,42 @@ func extSscanf(fr *frame, args []value) (value, bool) {
 	ptr := pi.v.(*value)
 	elemT := mustDeref(pi.t)
 	k, _ := basicKindOfType(elemT)
+	if ss, isSym := args[0].(*SymStr); isSym {
+		// a single decimal numeral atom: Sscanf("%d") reads back the number
+		if len(ss.E) == 1 {
+			if at, isAtom := ss.E[0].(*Atom); isAtom && (at.Verb == "%d" || at.Verb == "%v") && kindInt(at.K) && kindInt(k) {
+				tp := in.tp
+				ws, wd := kindWidth(at.K), kindWidth(k)
+				// value must be representable in the destination, else Sscanf reports a range error
+				var fits *Term
+				var conv *Term
+				switch {
+				case kindSigned(at.K) == kindSigned(k) && wd >= ws:
+					fits = tp.Bool(true)
+					if kindSigned(k) {
+						conv = tp.SignExt(wd-ws, at.T)
+					} else {
+						conv = tp.ZeroExt(wd-ws, at.T)
+					}
+				case !kindSigned(at.K) && kindSigned(k) && wd > ws:
+					fits = tp.Bool(true)
+					conv = tp.ZeroExt(wd-ws, at.T)
+				default:
+					panic(unsupported{"fmt.Sscanf of a numeral atom into a narrower/differently signed destination"})
+				}
+				if in.decide(fits, "Sscanf range") {
+					*ptr = in.mk(k, conv)
+					return tuple{1, iface{}}, true
+				}
+				return tuple{0, in.w.mkError("value out of range")}, true
+			}
+		}
+		panic(unsupported{"fmt.Sscanf on symbolic string"})
+	}
+	s, ok := args[0].(string)
+	if !ok {
+		panic(unsupported{"fmt.Sscanf on symbolic string"})
+	}
 	var n int
 	var err error
 	switch k {
